@@ -5,10 +5,13 @@ CONSTANTS
  Recorders = {}
  Drainers = {}
  LockedDrain = TRUE
+ BS = 64
+ DrainWaitsFirstBlockOnly = FALSE
+ CF07aFixed = FALSE
  Scope = "scalar"
  MaxOps = 5
  RecLimit = 0
  DrainLimit = 0
  UpLimit = 0
-INVARIANTS TypeOK Conservation StrictConservation RenderFaithful RenderBounds NoLossSequential CounterMeaning HelpFirst RenderTwice LabelsOK
+INVARIANTS TypeOK Conservation StrictConservation RenderFaithful RenderBounds NoSkippedSample NoLossSequential CounterMeaning HelpFirst RenderTwice LabelsOK
 CHECK_DEADLOCK FALSE
